@@ -123,7 +123,15 @@ def type_tested(w, dels):
         hit = [x for x in subterms(t) if isinstance(x, tuple) and x and x[0] == 'call' and x[1].split('::')[-1] in ('find', 'position', 'find_map')
                and len(x[2]) == 2 and re.search(r'(^|[( ])is\(walrus_as_any\(elem\(', show(x[2][1]))]
         if not hit:
-            return False
+            # a hand-written search loop: the world assumes the type test true for the very entry whose id is deleted
+            ok2 = False
+            for k, v in w.assumptions:
+                if isinstance(k, tuple) and k and k[0] == 'atom' and v is True:
+                    m = re.search(r'(^|[( ])is\(walrus_as_any\((elem\(.*\))\.1\)\)', show(k[1]))
+                    if m and m.group(2) in show(t):
+                        ok2 = True
+            if not ok2:
+                return False
     return bool(dels)
 
 
